@@ -577,16 +577,32 @@ impl Hook for H {
   }
 
   fn plain_write(&self, addr: usize, len: usize) {
+    let bad = ENG.with(|e| {
+      let mut e = e.borrow_mut();
+      if e.observer || len == 0 || e.aborting {
+        return false;
+      }
+      let cur = e.cur;
+      if addr < e.rg.base || addr + len > e.rg.base + e.rg.cap {
+        let rel = addr as i128 - e.rg.base as i128;
+        let cap = e.rg.cap;
+        e.viol.push(V { class: "wild-access".into(), sig: "wild-access:zeroing".into(), msg: format!("thread {} zeroes {} bytes at arena offset {} (capacity {}): outside the arena", cur, len, rel, cap) });
+        // the write has not happened yet (the hook reports first): the execution is abandoned before it can
+        // damage the explorer's own heap
+        e.aborting = true;
+        return true;
+      }
+      false
+    });
+    if bad {
+      std::panic::panic_any(Abort);
+    }
     ENG.with(|e| {
       let mut e = e.borrow_mut();
       if e.observer || len == 0 {
         return;
       }
       let cur = e.cur;
-      if addr < e.rg.base || addr + len > e.rg.base + e.rg.cap {
-        e.viol.push(V { class: "wild-access".into(), sig: "wild-access:zeroing".into(), msg: format!("thread {} zeroes [{:#x},+{}) outside the arena", cur, addr, len) });
-        return;
-      }
       let off = addr - e.rg.base;
       let hit = e.live.iter().find(|l| off < l.m.0 + l.m.1 && off + len > l.m.0).cloned();
       if let Some(l) = hit {
